@@ -20,7 +20,7 @@ def gen_send(rng):
     dst = rng.choice([None, None, rng.randrange(n)])
     dtype = rng.choice(DT)
     ndim = rng.choice([0, 1, 1, 2, 2, 3, 4])
-    mode = rng.choice(["uneven", "uneven", "equal", "one-dim", "uneven", "uneven", "equal", "one-dim", "mixed-ndim"])
+    mode = rng.choice(["uneven", "uneven", "equal", "one-dim", "uneven", "uneven", "equal", "one-dim", "mixed-ndim", "mixed-dtype", "mixed-dtype"])
     base = [rng.choice([0, 1, 2, 3]) for _ in range(ndim)]
     members = []
     for _ in range(n):
@@ -34,7 +34,12 @@ def gen_send(rng):
         nd = ndim
         if mode == "mixed-ndim":        # outside C15's quantifier (equal rank) unless D10 is repaired
             nd = rng.choice([0, ndim, ndim, rng.choice([1, 2, 3])])
-        members.append(su.gen_tensor(rng, dtype, nd, shape if nd == ndim else None))
+        dt = dtype
+        if mode == "mixed-dtype":       # outside C15's quantifier (equal dtype) unless the dtype negotiation is present
+            dt = rng.choice([dtype, rng.choice(DT)])
+            if rng.random() < 0.3:
+                nd = rng.choice([0, ndim, rng.choice([1, 2])])
+        members.append(su.gen_tensor(rng, dt, nd, shape if nd == ndim else None))
     return {"kind": "send", "W": W, "group": g, "dst": dst, "members": members}
 
 
@@ -163,6 +168,8 @@ def classify(scn, iout):
     outcomes = [iout[r] for r in g]
     if scn["kind"] == "send" and len({len(t["shape"]) for t in scn["members"]}) > 1 and not su.detect_variant()["D10"]:
         return []          # tensors of unequal rank: no promise on the code as it is (D10 is a C02 finding)
+    if scn["kind"] == "send" and len({t["dtype"] for t in scn["members"]}) > 1 and not su.detect_variant()["DT"]:
+        return []          # tensors of unequal dtype: no promise without the dtype negotiation (C02-state-dtype-follows-data)
     if any(o[0] != "ok" for o in outcomes):
         kinds = sorted({(o[0], o[1] if o[0] == "exc" else "") for o in outcomes if o[0] != "ok"})
         fid = None
@@ -255,6 +262,8 @@ def tie_stream(ctx, name, gen, count, model_name):
             s.count("ndim=%d" % len(scn["members"][0]["shape"]))
             if len({len(t["shape"]) for t in scn["members"]}) > 1:
                 s.count("mixed-ndim")
+            if len({t["dtype"] for t in scn["members"]}) > 1:
+                s.count("mixed-dtype")
             s.count("zero-extent" if any(0 in t["shape"] for t in scn["members"]) else "no-zero-extent")
             s.count("fastpath-equal" if len(shapes) == 1 else "pad-trim")
         else:
